@@ -48,7 +48,7 @@ type c10Op struct {
 func c10RefusedHistories(r *core.Run) {
 	firsts := []string{"/s/t/u", "/s/t", "/s/t/u/w", "/s/t/?u", "/s/{p}/u"}
 	attempts := []string{"/s/t/u", "/s/{x}/{x}", "/s/t/{x}/{x}", "/s/{m: **}/{n: **}/z", "/s/t/u/{y}/{y}", "/s/?t/u", "/s/t"}
-	paths := []string{"/s/t/u", "//s/t/u", "/s/t", "/s//t", "/s/t/u/w", "/s/t/u//w", "/s/t/", "/s/x/u", "/s", "/s/t/u/", "//s", "//s/t", "/q", "//q", "/q/r", "//q/r"}
+	paths := []string{"/s/t/u", "//s/t/u", "/s/t", "/s//t", "/s/t/u/w", "/s/t/u//w", "/s/t/", "/s/x/u", "/s", "/s/t/u/", "//s", "//s/t", "/q", "//q", "/q/r", "//q/r", "/", "//", ""}
 	type job struct{ ops []c10Op }
 	var jobs [][]c10Op
 	for _, f1 := range firsts {
@@ -81,20 +81,32 @@ func c10RefusedHistories(r *core.Run) {
 			jobs = append(jobs, ops, append(append([]c10Op{}, ops...), c10Op{Kind: "reg", Method: "GET", Route: "/{p}"}))
 		}
 	}
+	// optional routes whose short or long forms collide on one literal with each other and with plain routes
+	{
+		opt := []string{"/?s", "/s/?t", "/s/t/?u", "/s", "/s/t", "/?q", "/q/?r"}
+		for _, a := range opt {
+			for _, b := range opt {
+				if a == b {
+					continue
+				}
+				for _, m := range []string{"GET", "*"} {
+					jobs = append(jobs, []c10Op{{Kind: "reg", Method: m, Route: a}, {Kind: "reg", Method: "GET", Route: b}},
+						[]c10Op{{Kind: "reg", Method: m, Route: a}, {Kind: "reg", Method: "GET", Route: b}, {Kind: "headers", Target: 0, Pairs: []string{"X-K", "v"}}})
+				}
+			}
+		}
+	}
 	r.Bounds["histories_with_a_refused_attempt"] = fmt.Sprintf("%d histories: %d first routes x {GET, all methods} x %d attempts refused below the first segment x {no, optional, dynamic} second route x Headers() afterwards or not; %d probe paths", len(jobs), len(firsts), len(attempts), len(paths))
 	r.Parallel(func(wk, nw int, l *core.Local) {
 		p, _ := route.NewParser()
 		for ji := wk; ji < len(jobs); ji += nw {
-			if r.Expired() {
-				return
-			}
 			w, ok, bad := c10Apply(p, jobs[ji])
 			if bad != "" {
 				l.Violate("registration-verdict", bad, c10Case{Ops: jobs[ji]})
 				continue
 			}
 			if !ok {
-				l.Extra["refused_attempt_histories_not_applicable(the attempt is accepted)"]++
+				l.Extra["dedicated_histories_not_applicable(an attempt is accepted that was expected refused, or the other way round)"]++
 				continue
 			}
 			l.States++
@@ -107,9 +119,9 @@ func c10RefusedHistories(r *core.Run) {
 						l.NonTrivial++
 						if bad, outcome := c10One(w, method, path, hdr); bad != "" {
 							l.Class("mismatch")
-							l.Violate("shortcut-vs-tree/"+outcome+"/after-a-refused-attempt", bad+fmt.Sprintf(" [history %v, refused attempts %v, request %s %q %v]", w.desc, w.refused, method, path, hdr), c10Case{Ops: jobs[ji], Method: method, Path: path, Headers: hdr})
+							l.Violate("shortcut-vs-tree/"+outcome+"/dedicated-history", bad+fmt.Sprintf(" [history %v, refused attempts %v, request %s %q %v]", w.desc, w.refused, method, path, hdr), c10Case{Ops: jobs[ji], Method: method, Path: path, Headers: hdr})
 						} else {
-							l.Class("after-a-refused-attempt")
+							l.Class("dedicated-history")
 						}
 					}
 				}
@@ -321,7 +333,7 @@ func c10OneReq(w *c10World, method, path string, req *http.Request, hdr map[stri
 func c10Run(r *core.Run) {
 	ops := c10Ops()
 	depth := 3
-	r.SetBudget(70 * time.Second)
+	r.SetBudget(90 * time.Second)
 	if r.Thorough() {
 		r.SetBudget(14 * time.Minute)
 	}
@@ -403,6 +415,8 @@ func c10Run(r *core.Run) {
 			return strings.Join(w.desc, ";"), true
 		}
 	}
+	// the dedicated histories first (a second of work: the search below may use up the budget)
+	c10RefusedHistories(r)
 	b := &core.BFS{NumOps: len(ops), MaxDepth: depth, Step: mkStep(ops, depth), Run: r, Dedup: true}
 	s, t, d := b.Search()
 	loc := core.NewLocal()
@@ -411,7 +425,6 @@ func c10Run(r *core.Run) {
 	if d < depth {
 		r.NotExhaustive("internal deadline")
 	}
-	c10RefusedHistories(r)
 	if r.Thorough() {
 		// one level deeper over a reduced alphabet (the shapes the shortcut logic distinguishes: static,
 		// optional-static, shadowing placeholder and match-all, static below a static, root; one or all methods)
